@@ -731,4 +731,259 @@ theorem body_solver_ivp :
      "    fftq[lvl, ...] = fftqi",
      "return (fftpi, fftqi, fftp, fftq)"] := rfl
 
+theorem body_fftmgr_load_wisdom :
+    (fftmgr_load_wisdom : List String) =
+    ["def _load_wisdom(self)",
+     "try:",
+     "  if self.wisdom_file.exists():",
+     "    with open(self.wisdom_file, 'rb') as f:",
+     "      wisdom = pickle.load(f)",
+     "      import_results = pyfftw.import_wisdom(wisdom)",
+     "      if all(import_results):",
+     "      else:",
+     "  else:",
+     "except Exception as e:"] := rfl
+
+theorem body_fftmgr_save_wisdom :
+    (fftmgr_save_wisdom : List String) =
+    ["def _save_wisdom(self)",
+     "try:",
+     "  wisdom = pyfftw.export_wisdom()",
+     "  with open(self.wisdom_file, 'wb') as f:",
+     "    pickle.dump(wisdom, f)",
+     "except Exception as e:"] := rfl
+
+theorem body_fftmgr_clear_cache :
+    (fftmgr_clear_cache : List String) =
+    ["def clear_cache(self)",
+     "pyfftw.interfaces.cache.disable()",
+     "pyfftw.interfaces.cache.enable()"] := rfl
+
+theorem body_fftmgr_cleanup :
+    (fftmgr_cleanup : List String) =
+    ["def _cleanup(self)",
+     "self._save_wisdom()",
+     "self.clear_cache()"] := rfl
+
+theorem body_cache_clear :
+    (cache_clear : List String) =
+    ["def clear(self)",
+     "count = 0",
+     "for f in self.cache_dir.glob('*.npz'):",
+     "  f.unlink()",
+     "  count += 1"] := rfl
+
+theorem body_cfg_parse_output :
+    (cfg_parse_output : List String) =
+    ["def _parse_output(d: dict)",
+     "if d is None:",
+     "  return OutputConfig()",
+     "return OutputConfig(format=d.get('format', 'netcdf'), directory=d.get('directory', './output'))"] := rfl
+
+theorem body_utils_sa_contribution :
+    (utils_sa_contribution : List String) =
+    ["def source_area_contribution(flx)",
+     "return flx.copy()"] := rfl
+
+theorem body_utils_sa_circular :
+    (utils_sa_circular : List String) =
+    ["def source_area_circular(X, Y, meas_pt)",
+     "xm, ym = meas_pt",
+     "return -((X - xm) ** 2 + (Y - ym) ** 2)"] := rfl
+
+theorem body_utils_sa_upwind :
+    (utils_sa_upwind : List String) =
+    ["def source_area_upwind(X, Y, meas_pt, wind)",
+     "xm, ym = meas_pt",
+     "u, v = wind",
+     "speed = np.sqrt(u ** 2 + v ** 2)",
+     "u_hat, v_hat = (u / speed, v / speed)",
+     "return u_hat * (X - xm) + v_hat * (Y - ym)"] := rfl
+
+theorem body_utils_sa_crosswind :
+    (utils_sa_crosswind : List String) =
+    ["def source_area_crosswind(X, Y, meas_pt, wind)",
+     "xm, ym = meas_pt",
+     "u, v = wind",
+     "speed = np.sqrt(u ** 2 + v ** 2)",
+     "u_hat, v_hat = (u / speed, v / speed)",
+     "return -(-v_hat * (X - xm) + u_hat * (Y - ym)) ** 2"] := rfl
+
+theorem body_utils_sa_sector :
+    (utils_sa_sector : List String) =
+    ["def source_area_sector(X, Y, meas_pt, wind)",
+     "xm, ym = meas_pt",
+     "u, v = wind",
+     "theta = np.arctan2(Y - ym, X - xm)",
+     "theta_upwind = np.arctan2(-v, -u)",
+     "theta_rel = theta - theta_upwind",
+     "theta_rel = np.arctan2(np.sin(theta_rel), np.cos(theta_rel))",
+     "return -np.abs(theta_rel)"] := rfl
+
+theorem body_plot_extract_percentile_contour :
+    (plot_extract_percentile_contour : List String) =
+    ["def extract_percentile_contour(flx, grid, pct=0.8, level=0)",
+     "flx, grid = _maybe_slice_level(flx, grid, level)",
+     "X, Y, _ = grid",
+     "dx = np.abs(X[0, 1] - X[0, 0]) if X.ndim == 2 else np.abs(X[1] - X[0])",
+     "dy = np.abs(Y[1, 0] - Y[0, 0]) if Y.ndim == 2 else np.abs(Y[1] - Y[0])",
+     "cell_area = dx * dy",
+     "flat = flx.ravel()",
+     "idx = np.argsort(flat)[::-1]",
+     "sorted_vals = flat[idx]",
+     "cumsum = np.cumsum(sorted_vals) * cell_area",
+     "total = cumsum[-1]",
+     "target = pct * total",
+     "k = np.searchsorted(cumsum, target)",
+     "level = sorted_vals[min(k, len(sorted_vals) - 1)]",
+     "area = (k + 1) * cell_area",
+     "return (float(level), float(area))"] := rfl
+
+theorem body_km_phiM :
+    (km_phiM : List String) =
+    ["def _phiM(zm, mo_len)",
+     "phi_m = np.zeros_like(zm, dtype=float)",
+     "sflag = mo_len < 0",
+     "phi_m[sflag] = (1 - 16 * zm[sflag] / mo_len[sflag]) ** (-0.25)",
+     "sflag = mo_len >= 0",
+     "phi_m[sflag] = 1 + 5 * zm[sflag] / mo_len[sflag]",
+     "return phi_m"] := rfl
+
+theorem body_km_phiC :
+    (km_phiC : List String) =
+    ["def _phiC(zm, mo_len)",
+     "phi_c = np.zeros_like(zm, dtype=float)",
+     "sflag = mo_len < 0",
+     "phi_c[sflag] = (1 - 16 * zm[sflag] / mo_len[sflag]) ** (-0.5)",
+     "sflag = mo_len >= 0",
+     "phi_c[sflag] = 1 + 5 * zm[sflag] / mo_len[sflag]",
+     "return phi_c"] := rfl
+
+theorem body_km_psiM :
+    (km_psiM : List String) =
+    ["def _psiM(zm, mo_len)",
+     "psi_m = np.zeros_like(zm, dtype=float)",
+     "sflag = mo_len < 0",
+     "inv_phi_m = (1 - 16 * zm[sflag] / mo_len[sflag]) ** 0.25",
+     "psi_m[sflag] = -2 * np.log(0.5 * (1 + inv_phi_m)) - np.log(0.5 * (1 + inv_phi_m ** 2)) + 2 * np.arctan(inv_phi_m) - np.pi * 0.5",
+     "sflag = mo_len >= 0",
+     "psi_m[sflag] = 5 * zm[sflag] / mo_len[sflag]",
+     "return psi_m"] := rfl
+
+theorem body_km_mParam :
+    (km_mParam : List String) =
+    ["def _mParam(zm, ws, ustar, mo_len)",
+     "k = von_karman",
+     "phi_m = _phiM(zm, mo_len)",
+     "m = ustar * phi_m / (k * ws)",
+     "return m"] := rfl
+
+theorem body_km_nParam :
+    (km_nParam : List String) =
+    ["def _nParam(zm, mo_len)",
+     "n = np.zeros_like(zm, dtype=float)",
+     "sflag = mo_len < 0",
+     "n[sflag] = (1 - 24 * zm[sflag] / mo_len[sflag]) / (1 - 16 * zm[sflag] / mo_len[sflag])",
+     "sflag = mo_len >= 0",
+     "n[sflag] = 1 / (1 + 5 * zm[sflag] / mo_len[sflag])",
+     "return n"] := rfl
+
+theorem body_pbl_psi :
+    (pbl_psi : List String) =
+    ["def psi(x)",
+     "xi = np.where(x > 0.0, np.nan, np.power(1.0 - 16.0 * x, 0.25, dtype=complex).real)",
+     "return np.where(x > 0.0, 5.0 * x, -2.0 * np.log(0.5 * (1.0 + xi)) - np.log(0.5 * (1.0 + xi ** 2)) + 2.0 * np.arctan(xi) - 0.5 * np.pi)"] := rfl
+
+theorem body_pbl_phi :
+    (pbl_phi : List String) =
+    ["def phi(x)",
+     "return np.where(x > 0.0, 1.0 + 5.0 * x, np.power(1.0 - 16.0 * x, -0.5, dtype=complex).real)"] := rfl
+
+theorem body_iface_make_cache :
+    (iface_make_cache : List String) =
+    ["def _make_cache(config)",
+     "if config.parallel.use_cache and config.solver.footprint:",
+     "  from .cache import GreensFunctionCache",
+     "  return GreensFunctionCache()",
+     "return None"] := rfl
+
+theorem body_iface_run_timeseries :
+    (iface_run_timeseries : List String) =
+    ["def run_bldfm_timeseries(config: BLDFMConfig, tower: TowerConfig, surface_flux: np.ndarray=None)",
+     "n = config.met.n_timesteps",
+     "cache = _make_cache(config)",
+     "results = []",
+     "for i in range(n):",
+     "  result = run_bldfm_single(config, tower, met_index=i, surface_flux=surface_flux, cache=cache)",
+     "  results.append(result)",
+     "return results"] := rfl
+
+theorem body_iface_run_multitower :
+    (iface_run_multitower : List String) =
+    ["def run_bldfm_multitower(config: BLDFMConfig, surface_flux: np.ndarray=None)",
+     "results = {}",
+     "for tower in config.towers:",
+     "  results[tower.name] = run_bldfm_timeseries(config, tower, surface_flux=surface_flux)",
+     "return results"] := rfl
+
+theorem body_iface_worker_single :
+    (iface_worker_single : List String) =
+    ["def _worker_single(args)",
+     "config, tower, met_index = args",
+     "os.environ['NUMBA_NUM_THREADS'] = '1'",
+     "from bldfm import config as cfg",
+     "cfg.NUM_THREADS = 1",
+     "from .fft_manager import reset_fft_manager",
+     "reset_fft_manager()",
+     "return run_bldfm_single(config, tower, met_index=met_index)"] := rfl
+
+theorem body_iface_worker_timeseries :
+    (iface_worker_timeseries : List String) =
+    ["def _worker_timeseries(args)",
+     "config, tower = args",
+     "os.environ['NUMBA_NUM_THREADS'] = '1'",
+     "from bldfm import config as cfg",
+     "cfg.NUM_THREADS = 1",
+     "from .fft_manager import reset_fft_manager",
+     "reset_fft_manager()",
+     "return (tower.name, run_bldfm_timeseries(config, tower))"] := rfl
+
+theorem body_iface_run_parallel :
+    (iface_run_parallel : List String) =
+    ["def run_bldfm_parallel(config: BLDFMConfig, max_workers: int=None, parallel_over: str='towers', surface_flux: np.ndarray=None)",
+     "if surface_flux is not None:",
+     "if max_workers is None:",
+     "  max_workers = config.parallel.max_workers",
+     "n_towers = len(config.towers)",
+     "n_time = config.met.n_timesteps",
+     "if parallel_over == 'towers':",
+     "  tasks = [(config, tower) for tower in config.towers]",
+     "  with ProcessPoolExecutor(max_workers=max_workers) as pool:",
+     "    futures = pool.map(_worker_timeseries, tasks)",
+     "  results = {name: res for name, res in futures}",
+     "else:",
+     "  if parallel_over == 'time':",
+     "    results = {}",
+     "    for tower in config.towers:",
+     "      tasks = [(config, tower, i) for i in range(n_time)]",
+     "      with ProcessPoolExecutor(max_workers=max_workers) as pool:",
+     "        step_results = list(pool.map(_worker_single, tasks))",
+     "      results[tower.name] = step_results",
+     "  else:",
+     "    if parallel_over == 'both':",
+     "      tasks = []",
+     "      for tower in config.towers:",
+     "        for i in range(n_time):",
+     "          tasks.append((config, tower, i))",
+     "      with ProcessPoolExecutor(max_workers=max_workers) as pool:",
+     "        flat_results = list(pool.map(_worker_single, tasks))",
+     "      results = {}",
+     "      idx = 0",
+     "      for tower in config.towers:",
+     "        results[tower.name] = flat_results[idx:idx + n_time]",
+     "        idx += n_time",
+     "    else:",
+     "      raise ValueError(f'Unknown parallel_over={parallel_over!r}. Choose 'towers', 'time', or 'both'.')",
+     "return results"] := rfl
+
 end BLDFM.Bridge
